@@ -1,48 +1,82 @@
 use crate::util::{Rng, RunOut};
 
+#[cfg(feature = "f_disc")]
 pub mod disc;
+#[cfg(feature = "f_errs")]
 pub mod errs;
+#[cfg(feature = "f_listview")]
 pub mod listview;
+#[cfg(feature = "f_pod")]
 pub mod pod;
+#[cfg(feature = "f_resolve")]
 pub mod resolve;
+#[cfg(feature = "f_seeds")]
 pub mod seeds;
+#[cfg(feature = "f_tlv")]
 pub mod tlv;
+#[cfg(feature = "f_token")]
 pub mod token;
+#[cfg(feature = "f_varlen")]
 pub mod varlen;
 
 pub fn generate(prop: &str, tier: &str, rng: &mut Rng) -> Vec<String> {
     match prop {
+        #[cfg(feature = "f_token")]
         "C16" => token::generate_c16(tier, rng),
+        #[cfg(feature = "f_token")]
         "C17" => token::generate_c17(tier, rng),
+        #[cfg(feature = "f_pod")]
         "C13" => pod::generate_c13(tier, rng),
+        #[cfg(feature = "f_disc")]
         "C18" => disc::generate(tier, rng),
+        #[cfg(feature = "f_varlen")]
         "C15" => varlen::generate(tier, rng),
+        #[cfg(feature = "f_resolve")]
         "C05" => resolve::generate_c05(tier, rng),
+        #[cfg(feature = "f_resolve")]
         "C06" | "C08" => resolve::generate_c06_c08(prop, tier, rng),
+        #[cfg(feature = "f_resolve")]
         "C07" => resolve::generate_c07(tier, rng),
+        #[cfg(feature = "f_resolve")]
         "C12" => resolve::generate_c12(tier, rng),
+        #[cfg(feature = "f_tlv")]
         "C02" => tlv::generate_c02(tier, rng),
+        #[cfg(feature = "f_tlv")]
         "C01" | "C03" | "C04" => tlv::generate_hist(prop, tier, rng),
+        #[cfg(feature = "f_listview")]
         "C09" => listview::generate_c09(tier, rng),
+        #[cfg(feature = "f_listview")]
         "C10" => listview::generate_c10(tier, rng),
+        #[cfg(feature = "f_seeds")]
         "C11" => seeds::generate(tier, rng),
+        #[cfg(feature = "f_errs")]
         "C19" => errs::generate(tier, rng),
+        #[cfg(feature = "f_pod")]
         "C14" => pod::generate_c14(tier, rng),
-        _ => panic!("unknown property {prop}"),
+        _ => panic!("property {prop}: unknown, or its stream family is not compiled in"),
     }
 }
 
 pub fn run(prop: &str, cases: &[String]) -> RunOut {
     match prop {
+        #[cfg(feature = "f_token")]
         "C16" | "C17" => token::run(prop, cases),
+        #[cfg(feature = "f_pod")]
         "C13" | "C14" => pod::run(prop, cases),
+        #[cfg(feature = "f_disc")]
         "C18" => disc::run(cases),
+        #[cfg(feature = "f_varlen")]
         "C15" => varlen::run(cases),
+        #[cfg(feature = "f_resolve")]
         "C05" | "C06" | "C07" | "C08" | "C12" => resolve::run(prop, cases),
+        #[cfg(feature = "f_tlv")]
         "C01" | "C02" | "C03" | "C04" => tlv::run(prop, cases),
+        #[cfg(feature = "f_listview")]
         "C09" | "C10" => listview::run(prop, cases),
+        #[cfg(feature = "f_seeds")]
         "C11" => seeds::run(cases),
+        #[cfg(feature = "f_errs")]
         "C19" => errs::run(cases),
-        _ => panic!("unknown property {prop}"),
+        _ => panic!("property {prop}: unknown, or its stream family is not compiled in"),
     }
 }
